@@ -7,11 +7,14 @@ set -u
 ROOT=$(cd "$(dirname "$0")/.." && pwd)
 patch=$(readlink -f "$1"); shift
 tier=${TIER:-quick}
-E=/tmp/eval
+E=${EVAL_DIR:-/tmp/eval}
 mkdir -p $E
 if [ ! -d $E/repo ]; then git -C /repo worktree add -q --detach $E/repo HEAD || exit 2; fi
 git -C $E/repo checkout -q --detach "$(git -C /repo rev-parse HEAD)" && git -C $E/repo checkout -- . || exit 2
+# NO_SYNC=1: keep the snapshot of /verif that is already there (frozen machinery while /verif is being edited)
+if [ "${NO_SYNC:-0}" != 1 ] || [ ! -d $E/verif ]; then
 rsync -a --delete --exclude .work --exclude .git --exclude replays --exclude evidence "$ROOT/" $E/verif/
+fi
 mkdir -p $E/verif/evidence
 sed -i "s|path = \"/repo\"|path = \"$E/repo\"|" $E/verif/ws/harness/Cargo.toml $E/verif/cfgprobe/Cargo.toml $E/verif/fuzz/Cargo.toml
 if ! git -C $E/repo apply "$patch"; then echo "try_patch_iso: patch does not apply: $patch" >&2; exit 2; fi
